@@ -344,8 +344,8 @@ def check_write_invalidates(ctx):
     path_par = func.params[1] if len(func.params) > 1 else 'path'
     opens = []
     for node in ast.walk(func.node):
-        if isinstance(node, ast.Call) and call_name(node) == 'open' and \
-                node.args:
+        if isinstance(node, ast.Call) and call_name(node) == 'open' and (
+                node.args or isinstance(node.func, ast.Attribute)):
             opens.append(node)
     ctx.floor('WRITE-INVALIDATE', len(opens), 1, 'open(...) in Env.to_file')
     assigns = {}
@@ -354,8 +354,14 @@ def check_write_invalidates(ctx):
                                                        ast.Name):
             assigns[node.targets[0].id] = node.value
     for call in opens:
-        target = call.args[0]
-        mode = call.args[1] if len(call.args) > 1 else None
+        if isinstance(call.func, ast.Attribute) and dotted(
+                call.func.value) not in ('io', 'os', 'builtins', 'codecs'):
+            # <path expression>.open(mode)
+            target = call.func.value
+            mode = call.args[0] if call.args else None
+        else:
+            target = call.args[0]
+            mode = call.args[1] if len(call.args) > 1 else None
         for kwd in call.keywords:
             if kwd.arg == 'mode':
                 mode = kwd.value
